@@ -396,7 +396,7 @@ pub fn cases(ctx: &Ctx) -> Vec<Case> {
             }
             // every skipped run costs a seek, i.e. a fresh decompressor, with compression on:
             // slow (minutes) but proportional to the input - keep these within the watchdog
-            if matches!(f, Forge::DeepOffsets(n) if (*n > 100_000 && p.layers != 0) || (*n > 20_000 && p.layers & 2 != 0)) {
+            if matches!(f, Forge::DeepOffsets(n) if *n > 20_000 && p.layers != 0) {
                 continue;
             }
             if matches!(f, Forge::SizesLen(_) | Forge::SizesCount(_) | Forge::SizesEntry(..) | Forge::SizesLast(_) | Forge::SizesEmpty) && p.layers & 2 == 0 {
